@@ -1,6 +1,6 @@
-(* C17 — strutil.HasSubseq does not slice out of range when the candidate
-   string is valid UTF-8 (whatever the seed).  Includes the width lemma of
-   lib/Utf8.v's decoder that the argument needs. *)
+(* C17 — strutil.HasSubseq (repaired: it skips the width decoded in the
+   candidate) does not slice out of range, for all byte strings.  Includes the
+   width lemma of lib/Utf8.v's decoder that the argument needs. *)
 From verif Require Import lib.Base lib.ListX lib.Utf8 model.C17 proofs.C17_proofs.
 From Coq Require Import ZifyBool ZifyNat ZifyN.
 Open Scope N_scope.
@@ -27,78 +27,50 @@ Proof.
   end; cbn [length]; try lia.
 Qed.
 
-Definition err1 (r : N) (w : nat) : bool := (r =? RuneError) && Nat.eqb w 1.
-
-Lemma err1_false r w : err1 r w = false -> ~ (r = RuneError /\ w = 1%nat).
-Proof. unfold err1. intros H [-> ->]. rewrite N.eqb_refl in H. discriminate. Qed.
-
-(* one step of utf8.Valid *)
-Lemma valid_fuel_step f p0 rest :
-  valid_fuel (S f) (p0 :: rest) =
-  (let '(r, w) := decode_rune (p0 :: rest) in
-   if err1 r w then false else valid_fuel f (skipn w (p0 :: rest))).
-Proof. reflexivity. Qed.
-
-Lemma valid_fuel_enough : forall f1 f2 s,
-  (length s <= f1)%nat -> (length s <= f2)%nat -> valid_fuel f1 s = valid_fuel f2 s.
+(* any decoded rune of a non-empty string is between 1 byte and the whole string wide *)
+Lemma decode_width_any s r w :
+  decode_rune s = (r, w) -> s <> [] -> (1 <= w <= length s)%nat.
 Proof.
-  induction f1 as [|f1 IH]; intros f2 s H1 H2.
-  - destruct s; [|cbn in H1; lia]. destruct f2; reflexivity.
-  - destruct s as [|p0 rest]; [destruct f2; reflexivity|].
-    destruct f2 as [|f2]; [cbn in H2; lia|].
-    rewrite !valid_fuel_step.
-    destruct (decode_rune (p0 :: rest)) as [r w] eqn:Ed.
-    destruct (err1 r w) eqn:Ee; [reflexivity|].
-    destruct (decode_width _ _ _ Ed ltac:(discriminate) (err1_false _ _ Ee)) as [_ Hw].
-    apply IH; rewrite skipn_length; cbn [length] in *; lia.
+  intros H Hs.
+  destruct (N.eq_dec r RuneError) as [Hr|Hr]; [destruct (Nat.eq_dec w 1) as [Hw|Hw]|].
+  - subst w. destruct s; [congruence|cbn [length]; lia].
+  - apply (decode_width s r w H Hs). tauto.
+  - apply (decode_width s r w H Hs). tauto.
 Qed.
 
-Lemma valid_step s r w :
-  valid s = true -> s <> [] -> decode_rune s = (r, w) ->
-  w = rune_len r /\ (1 <= w <= length s)%nat /\ valid (skipn w s) = true.
-Proof.
-  intros Hv Hs Hd. destruct s as [|p0 rest]; [congruence|].
-  unfold valid in Hv. cbn [length] in Hv. rewrite valid_fuel_step, Hd in Hv.
-  destruct (err1 r w) eqn:Ee; [discriminate|].
-  destruct (decode_width _ _ _ Hd Hs (err1_false _ _ Ee)) as [Hw Hl].
-  repeat split; try lia; try exact Hw.
-  unfold valid. rewrite <- Hv. apply valid_fuel_enough; rewrite ?skipn_length; cbn [length] in *; lia.
-Qed.
-
+(* strings.IndexRune returns an offset inside the string *)
 Lemma index_rune_spec p : forall fuel s off i,
-  valid s = true ->
   index_rune decode_rune fuel s p off = Some i ->
-  exists k, i = (off + k)%nat /\ (k + rune_len p <= length s)%nat
-            /\ valid (skipn (k + rune_len p) s) = true.
+  exists k, i = (off + k)%nat /\ (k < length s)%nat.
 Proof.
-  induction fuel as [|f IH]; intros s off i Hv H; cbn [index_rune] in H; [discriminate|].
+  induction fuel as [|f IH]; intros s off i H; cbn [index_rune] in H; [discriminate|].
   destruct s as [|p0 rest] eqn:Es; [discriminate|]. rewrite <- Es in *.
-  assert (Hne : s <> []) by (rewrite Es; discriminate).
+  assert (Hlen : (0 < length s)%nat) by (rewrite Es; cbn [length]; lia).
   destruct (decode_rune s) as [r w] eqn:Ed.
-  destruct (valid_step s r w Hv Hne Ed) as (Hw & Hl & Hv').
   destruct (N.eqb r p) eqn:Ep.
-  - apply N.eqb_eq in Ep. subst r. inversion H; subst i. exists 0%nat.
-    rewrite <- Hw. cbn [Nat.add]. repeat split; try lia. exact Hv'.
-  - replace (Nat.max w 1) with w in H by lia.
-    destruct (IH _ _ _ Hv' H) as (k & Hi & Hk & Hvk).
-    rewrite skipn_length in Hk. rewrite skipn_skipn in Hvk.
-    exists (w + k)%nat. repeat split; try lia.
-    replace (w + k + rune_len p)%nat with (w + (k + rune_len p))%nat by lia. exact Hvk.
+  - inversion H; subst i. exists 0%nat. split; lia.
+  - destruct (IH _ _ _ H) as (k & Hi & Hk). rewrite skipn_length in Hk.
+    exists (Nat.max w 1 + k)%nat. split; lia.
 Qed.
 
-Lemma has_subseq_no_panic_partial : forall fuel s t,
-  valid s = true -> is_panic (has_subseq decode_rune rune_len fuel s t) = false.
+(* the repaired HasSubseq never slices out of range, for all byte strings *)
+Lemma has_subseq_no_panic : forall fuel s t,
+  is_panic (has_subseq decode_rune fuel s t) = false.
 Proof.
-  induction fuel as [|f IH]; intros s t Hv; cbn [has_subseq]; [reflexivity|].
+  induction fuel as [|f IH]; intros s t; cbn [has_subseq]; [reflexivity|].
   destruct t as [|t0 trest] eqn:Et; [reflexivity|]. rewrite <- Et.
   destruct (decode_rune t) as [p w].
   destruct (index_rune decode_rune (S (length s)) s p 0) as [i|] eqn:Ei; [|reflexivity].
-  destruct (index_rune_spec p _ _ _ _ Hv Ei) as (k & Hi & Hk & Hvk). cbn [Nat.add] in Hi. subst i.
+  destruct (index_rune_spec p _ _ _ _ Ei) as (k & Hi & Hk). cbn [Nat.add] in Hi. subst i.
   rewrite slc_ok by (unfold zlen; lia). cbn [bind].
   rewrite firstn_all2 by (rewrite skipn_length; unfold zlen; lia).
-  rewrite Nat2Z.id. apply IH. exact Hvk.
+  rewrite Nat2Z.id.
+  destruct (decode_rune (skipn k s)) as [r size] eqn:Ed.
+  assert (Hne : skipn k s <> []).
+  { intros E. apply (f_equal (@length N)) in E. rewrite skipn_length in E. cbn [length] in E. lia. }
+  pose proof (decode_width_any _ _ _ Ed Hne) as Hw. rewrite skipn_length in Hw.
+  rewrite slc_ok by (unfold zlen; lia). cbn [bind]. apply IH.
 Qed.
 
-Lemma go_has_subseq_no_panic_partial s t :
-  valid s = true -> is_panic (go_has_subseq s t) = false.
-Proof. intros Hv. unfold go_has_subseq. now apply has_subseq_no_panic_partial. Qed.
+Lemma go_has_subseq_no_panic s t : is_panic (go_has_subseq s t) = false.
+Proof. unfold go_has_subseq. apply has_subseq_no_panic. Qed.
